@@ -45,7 +45,13 @@ impl Interpreter {
                 let predicate = self.state.stack.pop_bool()?;
                 self.state.executed_opcodes.push(*code);
 
-                if predicate {
+                // OP_NOTIF runs its first branch when the predicate is false
+                let run_first_branch = match code {
+                    OpCodes::OP_NOTIF | OpCodes::OP_VERNOTIF => !predicate,
+                    _ => predicate,
+                };
+
+                if run_first_branch {
                     let _removed: Vec<ScriptBit> = self.script_bits.splice(self.script_index + 1..self.script_index + 1, pass.clone()).collect();
                     // println!("Removed items: {:?}", removed);
                 } else {
